@@ -143,6 +143,7 @@ func (f *fallback) doFallback(ctx context.Context, qCtx *query_context.Context) 
 	// Secondary goroutine.
 	qCtxS := qCtx.Copy()
 	go func() {
+		verifpoint.At("fallback.secondary.begin", qCtxS.Id())
 		timer := pool.GetTimer(f.fastFallbackDuration)
 		defer pool.ReleaseTimer(timer)
 		if !f.alwaysStandby { // not always standby, wait here.
